@@ -58,6 +58,18 @@ fn base_val(r: &mut Rng, m: &[u64], which: usize) -> Vec<u64> {
     }
 }
 
+/// a modulus with a repeated factor, m = s^2 (s odd, half the width), and the factor: multiples of s are nilpotent, so a
+/// power, a product or a sum of products of them is exactly 0 mod m (an accumulator that ends exactly at the modulus)
+fn nil_pair(r: &mut Rng, n: usize) -> (Vec<u64>, Vec<u64>) {
+    let s = if n == 1 { vec![(r.next() >> 32) | 1] } else { let mut s = nat_odd(r, n / 2); if s.iter().all(|x| *x == 0) { s[0] = 3; } s };
+    let s = trim(if r.chance(1, 4) { vec![r.pick(&[3u64, 5, 7, 0xffff_ffff])] } else { s });
+    (fit(trim(vmul(&s, &s)), n), s)
+}
+fn nil_base(r: &mut Rng, s: &[u64], m: &[u64]) -> Vec<u64> {
+    let t = if r.chance(1, 3) { vec![1u64] } else { let t = trim(below(r, s)); if t.is_empty() { vec![1] } else { t } };
+    fit(trim(vmul(s, &t)), m.len())
+}
+
 fn exponent(r: &mut Rng, n: usize, which: usize) -> Vec<u64> {
     match which % 8 {
         0 => vec![0; n],
@@ -89,9 +101,9 @@ fn pow_ev(form: &str, bits: usize, m: &[u64], b: &[u64], e: &[u64], ebits: usize
 
 fn pow_dyn<const N: usize, const E: usize>(cx: &mut Cx, iters: usize, exhaustive_k: bool) {
     for it in 0..iters {
-        let m = modulus(&mut cx.rng, N, it);
+        let (m, s) = if it % 6 == 5 { nil_pair(&mut cx.rng, N) } else { (modulus(&mut cx.rng, N, it), vec![]) };
         let params = MontyParams::<N>::new_vartime(odd::<N>(&m).unwrap());
-        let b = base_val(&mut cx.rng, &m, it / 3);
+        let b = if s.is_empty() { base_val(&mut cx.rng, &m, it / 3) } else { nil_base(&mut cx.rng, &s, &m) };
         let e = exponent(&mut cx.rng, E, it / 2);
         let x = MontyForm::<N>::new(&u::<N>(&b), params);
         let ex = u::<E>(&e);
@@ -132,9 +144,9 @@ fn pow_boxed(cx: &mut Cx, iters: usize) {
     for it in 0..iters {
         let n = if cx.rng.chance(1, 6) { cx.rng.pick(&[16usize, 17]) } else { cx.rng.range(1, 8) };
         let en = if cx.rng.coin() { n } else { cx.rng.range(1, 5) };
-        let m = modulus(&mut cx.rng, n, it);
+        let (m, s) = if it % 5 == 4 { nil_pair(&mut cx.rng, n) } else { (modulus(&mut cx.rng, n, it), vec![]) };
         let params = if it % 2 == 0 { BoxedMontyParams::new(oddb(&m).unwrap()) } else { BoxedMontyParams::new_vartime(oddb(&m).unwrap()) };
-        let b = base_val(&mut cx.rng, &m, it / 3);
+        let b = if s.is_empty() { base_val(&mut cx.rng, &m, it / 3) } else { nil_base(&mut cx.rng, &s, &m) };
         let e = exponent(&mut cx.rng, en, it / 2);
         let x = BoxedMontyForm::new(bx(&b), params);
         let ex = bx(&e);
@@ -216,10 +228,10 @@ macro_rules! pow_const {
 
 fn mexp_dyn<const N: usize, const E: usize>(cx: &mut Cx, iters: usize) {
     for it in 0..iters {
-        let m = modulus(&mut cx.rng, N, it);
+        let (m, s) = if it % 7 == 6 { nil_pair(&mut cx.rng, N) } else { (modulus(&mut cx.rng, N, it), vec![]) };
         let params = MontyParams::<N>::new_vartime(odd::<N>(&m).unwrap());
         let cnt = 1 + it % 4;
-        let bs: Vec<Vec<u64>> = (0..cnt).map(|j| base_val(&mut cx.rng, &m, it + j)).collect();
+        let bs: Vec<Vec<u64>> = (0..cnt).map(|j| if s.is_empty() { base_val(&mut cx.rng, &m, it + j) } else { nil_base(&mut cx.rng, &s, &m) }).collect();
         let es: Vec<Vec<u64>> = (0..cnt).map(|j| exponent(&mut cx.rng, E, it + j)).collect();
         let pairs: Vec<(MontyForm<N>, Uint<E>)> = bs.iter().zip(es.iter()).map(|(b, e)| (MontyForm::new(&u::<N>(b), params), u::<E>(e))).collect();
         let ks = kvals(&mut cx.rng, 64 * E, false);
@@ -237,10 +249,14 @@ fn mexp_dyn<const N: usize, const E: usize>(cx: &mut Cx, iters: usize) {
 
 fn lincomb_dyn<const N: usize>(cx: &mut Cx, iters: usize) {
     for it in 0..iters {
-        let m = lincomb_modulus(&mut cx.rng, N, it);
+        let (m, s) = if it % 8 == 7 { nil_pair(&mut cx.rng, N) } else { (lincomb_modulus(&mut cx.rng, N, it), vec![]) };
         let params = MontyParams::<N>::new_vartime(odd::<N>(&m).unwrap());
         let terms = 1 + (it * 3) % 40;
-        let (fx, fy): (Vec<MontyForm<N>>, Vec<MontyForm<N>>) = if it % 3 == 0 {
+        let (fx, fy): (Vec<MontyForm<N>>, Vec<MontyForm<N>>) = if !s.is_empty() {
+            // every product is 0 mod m
+            ((0..terms).map(|_| MontyForm::new(&u::<N>(&nil_base(&mut cx.rng, &s, &m)), params)).collect(),
+             (0..terms).map(|_| MontyForm::new(&u::<N>(&nil_base(&mut cx.rng, &s, &m)), params)).collect())
+        } else if it % 3 == 0 {
             // representatives chosen directly (near m-1: maximal accumulator carries), values read back
             ((0..terms).map(|j| MontyForm::from_montgomery(u::<N>(&rep_val(&mut cx.rng, &m, it + j)), params)).collect(),
              (0..terms).map(|j| MontyForm::from_montgomery(u::<N>(&rep_val(&mut cx.rng, &m, it + 2 * j)), params)).collect())
@@ -260,10 +276,13 @@ fn lincomb_dyn<const N: usize>(cx: &mut Cx, iters: usize) {
 fn lincomb_boxed(cx: &mut Cx, iters: usize) {
     for it in 0..iters {
         let n = cx.rng.range(1, 9);
-        let m = lincomb_modulus(&mut cx.rng, n, it);
+        let (m, s) = if it % 8 == 7 { nil_pair(&mut cx.rng, n) } else { (lincomb_modulus(&mut cx.rng, n, it), vec![]) };
         let params = BoxedMontyParams::new_vartime(oddb(&m).unwrap());
         let terms = 1 + (it * 3) % 40;
-        let (fx, fy): (Vec<BoxedMontyForm>, Vec<BoxedMontyForm>) = if it % 3 == 0 {
+        let (fx, fy): (Vec<BoxedMontyForm>, Vec<BoxedMontyForm>) = if !s.is_empty() {
+            ((0..terms).map(|_| BoxedMontyForm::new(bx(&nil_base(&mut cx.rng, &s, &m)), params.clone())).collect(),
+             (0..terms).map(|_| BoxedMontyForm::new(bx(&nil_base(&mut cx.rng, &s, &m)), params.clone())).collect())
+        } else if it % 3 == 0 {
             ((0..terms).map(|j| BoxedMontyForm::from_montgomery(bx(&rep_val(&mut cx.rng, &m, it + j)), params.clone())).collect(),
              (0..terms).map(|j| BoxedMontyForm::from_montgomery(bx(&rep_val(&mut cx.rng, &m, it + 2 * j)), params.clone())).collect())
         } else {
